@@ -47,6 +47,19 @@ func genUnix(t *rapid.T, label string) int64 {
 		return []int64{minUnix, minUnix + 1, maxUnix, maxUnix - 1, 0, -1, 1, 951782400, 1582934400, 68256000 - 1}[rapid.IntRange(0, 9).Draw(t, label+"edge")]
 	case 1, 2, 3:
 		return rapid.Int64Range(1262304000, 1893456000).Draw(t, label+"recent") // 2010..2030
+	case 4:
+		// calendar edges: ends of February in leap, century and 400-year years, year ends, first and last year
+		y := []int{1, 4, 100, 400, 1600, 1900, 2000, 2024, 2100, 2400, 9600, 9999}[rapid.IntRange(0, 11).Draw(t, label+"year")]
+		md := [][2]int{{2, 28}, {2, 29}, {3, 1}, {12, 31}, {1, 1}, {6, 30}}[rapid.IntRange(0, 5).Draw(t, label+"md")]
+		hms := [][3]int{{0, 0, 0}, {23, 59, 59}, {12, 0, 0}, {0, 0, 1}}[rapid.IntRange(0, 3).Draw(t, label+"hms")]
+		u := time.Date(y, time.Month(md[0]), md[1], hms[0], hms[1], hms[2], 0, time.UTC).Unix()
+		if u < minUnix {
+			u = minUnix
+		}
+		if u > maxUnix {
+			u = maxUnix
+		}
+		return u
 	}
 	return rapid.Int64Range(minUnix, maxUnix).Draw(t, label+"any")
 }
